@@ -321,6 +321,20 @@ func (w *PublishWorld) Publish(pr *PubReq) {
 		for _, e := range envs {
 			w.ids = append(w.ids, e.ID)
 		}
+		// the clause itself, independent of the queue model: a 2xx answer means
+		// every item of the batch is in the queue now, once
+		if items, err := w.Listing(); err == nil {
+			have := map[string]int{}
+			for _, it := range items {
+				have[it.ID]++
+			}
+			for _, e := range envs {
+				if e.ID != "" && have[e.ID] != 1 {
+					w.add("C15.accepted.missing", "C15,C01", loc, "publish answered %d published=%d but item %q is in the queue %d times right afterwards", resp.Status, out.Published, e.ID, have[e.ID])
+					break
+				}
+			}
+		}
 		w.Res.probe("publish.accepted")
 	case resp.Status == 503:
 		for _, v := range w.Model.Enqueue(now, envs, true, 0, queue.ErrQueueFull) {
